@@ -8,7 +8,7 @@ from checks.common import swarm
 ID = 'C10'
 LEVEL = 'exploration'
 NEEDS = ('threads',)
-QUICK = dict(runs=10000, wall=85)
+QUICK = dict(runs=30000, wall=85)
 THOROUGH = dict(runs=600000, wall=1500)
 RULE = ('scenario = tee(source, n_forks in {2,3}, buffer_size in {2,3,5}); source length in {0,1,2,window,window+3,..}, optional source '
         'failure at position j; each fork consumed in its own thread with generated virtual delays; line pre-emption inside _tee.py in '
